@@ -121,15 +121,23 @@ def antisense_dataset(seed, n_chroms=2, loci_per_chrom=4, reads_per_tx=5, lower_
     for c in range(n_chroms):
         chrom = "chr%d" % (c + 1)
         # build loci first, then the sequence
-        pos = 800
+        # contig borders: most contigs have their first locus starting within the first 25 bases and their last locus
+        # ending on (or a few bases before) the last base, as on small contigs / organelle and viral genomes
+        edge_start = rng.random() < 0.75
+        edge_end = rng.random() < 0.6
+        pos = rng.choice([1, 2, 5, rng.randint(1, 25), rng.randint(1, 25)]) if edge_start else 800
         loci = []
         for li in range(loci_per_chrom):
-            kind = rng.choice(["antisense", "antisense", "plain", "novel", "mixed"]) if li else "antisense"
+            kind = rng.choice(["antisense", "antisense", "plain", "novel", "mixed"]) if li else \
+                rng.choice(["antisense", "antisense", "plain", "novel"])
             nex = rng.randint(2, 5)
             exons, end = _exons_from(rng, pos, nex)
             loci.append((kind, exons))
             pos = end + rng.randint(1500, 3000)
-        length = chrom_len or (pos + 1000)
+        if not any(k == "antisense" for k, _ in loci):
+            loci[1] = ("antisense", loci[1][1])
+        last_end = loci[-1][1][-1][1]
+        length = chrom_len or ((last_end + rng.randint(0, 3)) if edge_end else (pos + 1000))
         ds.add_chrom(chrom, length)
         seq = ds.chroms[chrom]
         for li, (kind, exons) in enumerate(loci):
@@ -184,13 +192,15 @@ def antisense_dataset(seed, n_chroms=2, loci_per_chrom=4, reads_per_tx=5, lower_
                     seq = plant(seq, it, tbl[0] if rng.random() < 0.8 else rng.choice(NEAR_MISS + REV_PAIRS + FWD_PAIRS))
                 ds.chroms[chrom] = seq
                 strands = [strand]
-            truth["loci"].append({"chr": chrom, "kind": kind, "exons": exons, "strands": strands})
+            truth["loci"].append({"chr": chrom, "kind": kind, "exons": exons, "strands": strands,
+                                  "at_contig_start": li == 0 and edge_start, "at_contig_end": li == len(loci) - 1 and edge_end})
             # reads
             for s in strands:
                 for k in range(reads_per_tx):
                     e = list(locus_exons[s]) if kind == "antisense" else list(exons)
-                    e[0] = (e[0][0] + rng.randint(0, 30), e[0][1])
-                    e[-1] = (e[-1][0], e[-1][1] - rng.randint(0, 30))
+                    # at a contig border the reads start / end (almost) on the border too
+                    e[0] = (e[0][0] + rng.randint(0, 3 if (li == 0 and edge_start) else 30), e[0][1])
+                    e[-1] = (e[-1][0], e[-1][1] - rng.randint(0, 3 if (li == len(loci) - 1 and edge_end) else 30))
                     tail = rng.random() < 0.7
                     pa = 25 if (tail and s == "+") else 0
                     pt = 25 if (tail and s == "-") else 0
